@@ -30,7 +30,7 @@ def parseCfg (toks : List String) : Option (Cfg × Int) :=
   match toks with
   | [mode, v, a, s, d, b, n, g, k, m, dn, dg, bud] => do
     let mode ← (match mode with | "rand" => some Mode.rand | "det" => some Mode.det | "quota" => some Mode.quota | _ => none)
-    let variant ← (match kv? "v" v with | some "orig" => some Variant.orig | some "fix" => some Variant.fitKeep | _ => none)
+    let variant ← (match kv? "v" v with | some "orig" => some Variant.orig | some "fix" => some Variant.fitKeep | some "posids" => some Variant.posIds | _ => none)
     let agent ← flag? "agent" a
     let keepSingle ← flag? "single" s
     let disableNoSample ← flag? "disns" d
